@@ -22,6 +22,7 @@ RAW = {
     "std::path::Path::read_dir": "readdir", "std::fs::canonicalize": "stat", "std::path::Path::canonicalize": "stat",
     "uucore::fs::FileInformation::from_path": "stat/lstat", "uucore::fs::FileInformation::from_file": "fstat",
     "walkdir::DirEntry::metadata": "walkdir", "walkdir::DirEntry::file_type": "walkdir", "walkdir::DirEntry::path_is_symlink": "walkdir",
+    "walkdir::DirEntryExt::ino": "readdir d_ino (the covered directory's inode at a mount point)", "<walkdir::DirEntry as walkdir::DirEntryExt>::ino": "readdir d_ino",
     "std::fs::DirEntry::metadata": "lstat", "std::fs::DirEntry::file_type": "lstat", "nix::sys::stat::stat": "stat", "nix::sys::stat::lstat": "lstat",
 }
 # function (prefix) -> (allowed raw callees, reason, side condition id)
